@@ -502,13 +502,15 @@ func scenUpdates(e *Env, args []string, r *rand.Rand) {
 	}
 	if c != nil {
 		var stream []byte
+		var msgLens []int
 		nupd := 0
 		if est > 0 {
 			stream = append(stream, wire.Keepalive()...)
 		}
 		for i := 0; i < n; i++ {
-			if r.Intn(5) == 0 {
+			if r.Intn(5) == 0 && m["nokeep"] != "1" {
 				stream = append(stream, wire.Keepalive()...)
+				msgLens = append(msgLens, 19)
 				continue
 			}
 			l := r.Intn(24)
@@ -523,12 +525,13 @@ func scenUpdates(e *Env, args []string, r *rand.Rand) {
 			body := make([]byte, l)
 			r.Read(body)
 			stream = append(stream, wire.Update(body)...)
+			msgLens = append(msgLens, 19+l)
 			nupd++
 		}
 		// random partition into writes: 1-byte writes, writes spanning several messages, …
 		var segs []int
 		mode := r.Intn(4)
-		if end != "" || est > 0 {
+		if end != "" || est > 0 || atoi(m["slow"], 0) >= 4000 {
 			mode = 1 // large writes: the reader must be able to get ahead of the (slow) handler
 		}
 		for rem := len(stream); rem > 0; {
@@ -558,7 +561,15 @@ func scenUpdates(e *Env, args []string, r *rand.Rand) {
 			stream = append(stream, bad...)
 			segs = append(segs, len(bad))
 		}
-		if pause := atoi(m["pause"], 0); pause > 0 && len(stream) > 40 {
+		if gap := atoi(m["gapms"], 0); gap > 0 {
+			// a steady stream: one message every <gap> ms (far below any hold time), for longer than the hold time
+			off := 0
+			for _, sg := range msgLens {
+				c.send(stream[off : off+sg])
+				off += sg
+				time.Sleep(time.Duration(gap) * time.Millisecond)
+			}
+		} else if pause := atoi(m["pause"], 0); pause > 0 && len(stream) > 40 {
 			// one long pause inside a message (after its first 7 bytes, or inside its body): far below any hold time
 			cut := 7
 			if r.Intn(2) == 0 {
@@ -581,7 +592,7 @@ func scenUpdates(e *Env, args []string, r *rand.Rand) {
 		if ve := atoi(m["echo"], 0); ve > 0 && ve <= nupd {
 			want = ve
 		}
-		deadline := time.Now().Add(5*time.Second + time.Duration(est)*time.Millisecond)
+		deadline := time.Now().Add(5*time.Second + time.Duration(est)*time.Millisecond + time.Duration(n*atoi(m["slow"], 0))*time.Microsecond)
 		for time.Now().Before(deadline) {
 			p.plugin.mu.Lock()
 			got := len(p.plugin.delivered)
@@ -763,6 +774,8 @@ func init() {
 		out = append(out, "updates:out:n=12:veto=3:second=1:k=s0", "updates:in:n=12:veto=2:second=1:k=s1", "updates:out:n=9:end=fin:slow=200:second=1:k=s2")
 		// the handler appends to the slice it was given while the next messages have already been read
 		out = append(out, "updates:in:n=25:slow=2000:append=64:end=fin:k=a0", "updates:out:n=25:slow=2000:append=8:end=fin:k=a1")
+		// a steady stream of messages, 100 ms apart, for longer than the hold time (3 s)
+		out = append(out, "updates:in:n=45:gapms=100:hold=3:k=g0", "updates:out:n=45:gapms=100:hold=3:k=g1")
 		// the hold timer fires while OnEstablished is still busy and UPDATEs are parked in the reader
 		for i := 0; i < 8; i++ {
 			out = append(out, fmt.Sprintf("updates:%s:n=%d:hold=3:est=3200:k=e%d", []string{"out", "in"}[i%2], 4+i, i))
